@@ -78,7 +78,8 @@ PROPS = {
         run_fn="run_rbcase",
         release_too=True,
         theorems=["C15_readbuf_refines_bounded_vec_step", "C15_readbuf_refines_bounded_vec",
-                  "C15_readbuf_refines_bounded_vec_checked_build", "C15_rejection_changes_nothing",
+                  "C15_readbuf_refines_bounded_vec_checked_build", "C15_readbuf_refines_bounded_vec_every_build",
+                  "C15_rejection_changes_nothing",
                   "C15_edits_confined_to_slot", "C15_reads_confined_to_slot", "C15_release_slot_unchanged"],
         rule="one splitmix64 stream per case (VERIF_SEED, index): a real ReadBufPool on a real ring with pool_size in "
              "{1,2,4,8} and buf_size in 1..64 (1, 2 and 64 over-weighted); every slot filled by a real read from a pipe "
@@ -88,15 +89,17 @@ PROPS = {
              "end, the rest from {0,1,len-1,len,len+1,len/2,cap,cap+1,usize::MAX-1,usize::MAX}) / set_len (beyond the "
              "capacity only in the build with debug assertions) / extend_from_slice (0, exactly fitting, one too many, "
              "cap+1) / spare_capacity_mut / repeated real read into the owned buffer / BufMut::extend_from_slice "
-             "(parts_mut + set_init); then the buffer is dropped and one more read is issued; 1 in 12 cases runs the calls "
+             "(parts_mut + set_init); then the buffer is dropped and one more read is issued; the H23 regression corpus "
+             "(bounds Excluded(usize::MAX) / Included(usize::MAX)) runs first; 1 in 12 cases runs the calls "
              "on a not yet filled buffer (model tie only, outside the property); non-trivial = owned buffer with at "
              "least one call; distinct by the Coq case term (which contains the pool memory)",
         assumptions=["buf_size is a non-zero u32 and pool_size <= 2^15 (hypothesis pool_ok; ReadBufPool::new asks for both)",
                      "the buffer was delivered by the kernel: pointer = start of slot id < pool_size, length <= buf_size "
                      "(hypothesis owned_wf, established by init_buffer: lemma init_state_wf)",
-                     "in a build without overflow checks / debug assertions: set_len is called within its documented "
-                     "contract and no range bound needs usize::MAX + 1 (predicate edit_ok; it is True in a build with "
-                     "the checks). The second restriction is a finding: see C15_release_build_remove_wraps_refuted",
+                     "in a build without debug assertions: set_len (an unsafe fn) is called within its documented "
+                     "contract new_len <= capacity (predicate edit_ok / set_len_in_contract; True in a build with the "
+                     "assertion). Nothing is assumed about range bounds since the repair of H23 (dcfd7cd); what the "
+                     "code did before: C15_remove_bounds_h23_refuted",
                      "the kernel stores read data only inside the (address, length) it was given and selects only "
                      "buffers it was handed (kernel behaviour, observed not proved)"],
         trusted=["std Vec<u8> as the reference in the harness (truncate, clear, drain, extend_from_slice, set_len; "
